@@ -182,9 +182,48 @@ func rBuild(rs []rRoute, ids []int) *rServer {
 			*s.out = rOutcome{status: 200, id: id, names: append([]string(nil), c.ParamNames()...), vals: append([]string(nil), c.ParamValues()...), path: c.Path()}
 			return c.NoContent(http.StatusOK)
 		}
-		s.e.Add(r.method, r.pattern, h)
+		rAdd(s.e, rBuildCount+k, r.method, r.pattern, h)
 	}
 	return s
+}
+
+// rAdd registers through the per-method helper (Echo.GET, Echo.PATCH, ..., Echo.RouteNotFound) every other time, else through Echo.Add.
+func rAdd(e *echo.Echo, salt int, method, pattern string, h echo.HandlerFunc) {
+	if salt%2 == 0 {
+		switch method {
+		case http.MethodGet:
+			e.GET(pattern, h)
+			return
+		case http.MethodPost:
+			e.POST(pattern, h)
+			return
+		case http.MethodPut:
+			e.PUT(pattern, h)
+			return
+		case http.MethodDelete:
+			e.DELETE(pattern, h)
+			return
+		case http.MethodPatch:
+			e.PATCH(pattern, h)
+			return
+		case http.MethodHead:
+			e.HEAD(pattern, h)
+			return
+		case http.MethodOptions:
+			e.OPTIONS(pattern, h)
+			return
+		case http.MethodConnect:
+			e.CONNECT(pattern, h)
+			return
+		case http.MethodTrace:
+			e.TRACE(pattern, h)
+			return
+		case rNF:
+			e.RouteNotFound(pattern, h)
+			return
+		}
+	}
+	e.Add(method, pattern, h)
 }
 
 func rServeOn(e *echo.Echo, out *rOutcome, method, path, host string) (o rOutcome) {
